@@ -149,9 +149,17 @@ PROPS["C02"] = {
     "level_note": OF_NOTE,
     "assumptions": COMMON_ASSUMPTIONS,
 }
+# encoders whose regenerated bodies the C03d theorems are stated over (tie T1): leaving the translated subset breaks C03
+C03D_GEN = (["common.Header.MarshalBinary", "common.HelloElemHeader.MarshalBinary"]
+            + ["openflow13.%s.MarshalBinary" % k for k in """
+    ActionHeader ActionOutput ActionSetqueue ActionGroup ActionMplsTtl ActionDecNwTtl ActionNwTtl ActionPush ActionPopVlan ActionPopMpls BundleControl
+    InstrHeader InstrMeter InPortField EthTypeField VlanIdField MplsLabelField MplsBosField IPv6FlowLabelField IpProtoField IpDscpField TunnelIdField
+    MetadataField PortField TcpFlagsField ArpOperField ActsetOutputField IcmpTypeField IcmpCodeField Uint16Message Uint32Message NXActionHeader
+    NXActionConjunction ControllerID TLVTableMap""".split()]
+            + ["openflow13.%s.Len" % k for k in "ActionHeader ActionOutput ActionGroup InstrHeader NXActionHeader NXActionConjunction ControllerID TLVTableMap BundleControl".split()])
 PROPS["C03"] = {
-    "modules": ["C03", "C03b", "C03c"],
-    "families": ["OF"], "ops": "api,apix,enc,prog", "gen_deps": [],
+    "modules": ["C03", "C03b", "C03c", "C03d"],
+    "families": ["OF"], "ops": "api,apix,enc,prog", "gen_deps": C03D_GEN,
     "rule": ENC_RULE, "trivial_outputs": ["panic", "err"],
     "level_text": "Kernel-checked (Props/C03.lean + C03b.lean, 68 theorems): LayoutHolds K v bs := every row of the specification table Spec.layouts for kind K (field name, offset, width) holds of the encoding — proved for all 36 kinds of the table whose rows are true: standard actions, 11 Nicira actions incl. the NAT fixed part, instructions, flow-mod, group-mod, bucket, packet-out, port-mod, set-config, multipart request and bodies, vendor payloads, bundle-add; match-field placement (header word, experimenter id exactly when present, value then mask exactly when HasMask); list order (k-th child intact at start + sum of the sizes before it) for match fields, actions, buckets, instructions, conntrack actions, TLV maps, learn specs; NAT optional parts in presence-bit order exactly when set. Proved counterexamples for the rows that are false: 16-bit port_no of the stats requests (known finding D44), stub kinds InstrMeter / ActionMplsTtl / ActionNwTtl (no constructor). Oracle: specification layout tables (Spec.layouts: offset, width per field of every message, action, instruction, bucket, vendor payload; OXM payload = value||mask in the field's width; NAT optional parts by presence bits in OVS order; learn-spec header packing; header words of register fields) applied to the implementation's bytes of every API-built value, element by element along the grammar walk.",
     "level_note": OF_NOTE + " Known finding D44 (port-stats / queue-stats request port_no is 16 bits wide in the struct).",
@@ -271,6 +279,7 @@ PROPS["C05"]["level_text"] += (" C05d (40 theorems, with an inventory of every k
     "(as apply-actions, as a bucket's list, inside a flow-mod through Parse), vendor messages without payload — and the precise limits as proved counterexamples "
     "(unknown experimenter / multipart types never parse, a bare hello element header loses what follows it, packet-in and hello swallow bytes behind the message).")
 PROPS["C06"]["level_text"] += (" C06d (80 theorems): for 70 kinds with a constant, stored or header-computed size the model's Len() equals the definition regenerated from the current Go Len() body (tie T1) for every value.")
+PROPS["C03"]["level_text"] += (" C03d (40 theorems): for 37 fixed-layout kinds (headers, the standard actions, InstrMeter, 18 scalar match payloads, NXActionHeader/Conjunction, ControllerID, TLVTableMap, BundleControl) the model's encoder returns exactly the bytes of the Go MarshalBinary body regenerated statement by statement on this run (tie T1), for every field value.")
 PROPS["C02"]["level_text"] += (" C02c: the REAL specification walker (Spec.walk…, incl. minimum lengths, zero padding, alignment, type codes) accepts the model's "
     "encoding and returns one subtree per child, for every hello (any list of version-bitmap elements; whole message through Spec.walk), TLV-table-mod (any list "
     "of maps), any list of bundle properties; 20 action kinds (output … set-field with any fixed-width match field, 10 Nicira kinds incl. note and controller) through the "
